@@ -387,7 +387,8 @@ func GenTx(t *rapid.T, p *Profile, pools *Pools, o TxOpts) *m.Tx {
 		tx.Status = 0
 	}
 	if rapid.IntRange(0, 4).Draw(t, "hasd2") == 0 && !p.off("tx.date2") {
-		d2 := GenDate(t, o.DefaultYear != 0 && !p.off("date2.partial") && !p.off("date.partial"), o.DefaultYear)
+		// a secondary date without year takes the year of the primary date, with or without a Y directive
+		d2 := GenDate(t, !p.off("date2.partial"), tx.Date.Y)
 		d2.Sep = tx.Date.Sep
 		tx.Date2 = &d2
 	}
